@@ -177,3 +177,21 @@ def c02(c):
     c.std([dict(src='c02_estimator.cpp', build='asan', variants=v, shards={'quick': 3, 'thorough': 3})])
     for k in ('iterations_judged', 'adjustment_entries_judged', 'bins_judged', 'runs_plain', 'runs_vegas', 'runs_multi_channel', 'finite_values_with_non_finite_product', 'zero_values_where_weight_is_not_finite'):
         c.require(k)
+
+
+@prop('C06',
+      rule="case = a PAIR of runs (poisoned, zeroed twin) of hep::plain / vegas / multi_channel with the same engine seed over 3..6 adaptive "
+           "iterations of 100..1200 calls: the poison set is a hash of the sampled point (rate: ~one point in 512, 1%, 30%, 100%), kind NaN / +inf / "
+           "-inf / mixed, source integrand return / value handed to projector.add / weight (map jacobian NaN, jacobian inf, all densities zero), "
+           "with 1-d or 2-d distributions; the twin returns 0 and omits exactly the non-finite adds. All fields of all iterations, the next "
+           "grid/weights and the stored generator are compared bitwise; non_zero_calls must differ by the number of poisoned evaluations; "
+           "every number of the poisoned run must be finite. non-trivial = adaptive integrator and a poisoned subset that is neither empty "
+           "nor everything; distinct = pair configuration hash.",
+      assumptions=["the poison set is a pure function of the sampled point, so both runs agree on it as long as they sample the same points (a divergence is itself reported)",
+                   "variance() is required finite for N>=2, error() is not judged (sqrt of a rounding-negative variance may be NaN legitimately)"])
+def c06(c):
+    c.std([dict(src='c06_nonfinite.cpp', build='asan', shards={'quick': 5, 'thorough': 5}),
+           dict(src='c06_nonfinite.cpp', build='clang', shards={'quick': 1, 'thorough': 5}, tiers=('thorough',))])
+    for k in ('pairs_plain', 'pairs_vegas', 'pairs_multi_channel', 'pairs_source_integrand-return', 'pairs_source_projector-add-value',
+              'pairs_source_weight(map)', 'poisoned_evaluations', 'fields_compared', 'pairs_everything_poisoned'):
+        c.require(k)
